@@ -166,13 +166,17 @@ def extract_reader_model(ctx):
         ctx.bad(R, 'values-masked', w, found='no masked value column appended', expected='data[lo:hi][mask]', key=f'{R}|values-missing')
     # the lists feed the output columns
     res = None
+    from ..facts import unobj
     for e in events(fa, 'assign'):
-        if e.value[0] == 'dict' and any(kv[2] == rows_l[0] for kv in e.value[1]):
+        if unobj(e.value)[0] == 'dict' and rows_l[0][0] == 'sub' and rows_l[0][1] == e.value:
             res = e.value
     if res is None:
         ctx.unrec(R, 'result-dict', w, reason='result dict literal not found')
         return None
-    keyof = {kv[2]: kv[1] for kv in res[1]}
+    keyof = {x[0]: x[0][2] for x in (rows_l, cols_l, data_l) if x is not None and x[0][0] == 'sub' and x[0][1] == res}
+    inits = {kv[1]: kv[2] for kv in unobj(res)[1]}
+    ctx.check(all(v[0] == 'call' and v[1] == G('$new_list') for v in inits.values()), R, 'result-init', w,
+              found={T.show(k): T.show(v) for k, v in inits.items()}, expected='every output column starts as an empty list')
     ctx.check(keyof.get(rows_l[0]) == C('bin1_id') and keyof.get(cols_l[0]) == C('bin2_id')
               and (data_l is None or keyof.get(data_l[0]) == V('field')), R, 'result-columns', w,
               found={T.show(k): T.show(v) for v, k in keyof.items()},
